@@ -11,7 +11,7 @@ Trace == ndJsonDeserialize(IOEnv.TRACE_FILE)
 TraceInit == Init /\ l = 1
 
 Reset(r) ==
-  /\ litplus' = r.litplus /\ state' = r.state
+  /\ litplus' = r.litplus /\ state' = r.state /\ utf8' = r.utf8
   /\ closed' = FALSE /\ stuck' = FALSE /\ out' = Obs("OK", 0, "none")
 
 Unit(r) ==
@@ -19,6 +19,7 @@ Unit(r) ==
   /\ Step(r.u)
   /\ out' = r.obs
   /\ closed' = r.closed
+  /\ r.bad = ""          \* everything the server wrote while reacting was a whole well-formed response line
 
 TraceNext ==
   /\ l <= Len(Trace)
